@@ -55,16 +55,21 @@ def gen_sensor(rng, t):
 
 
 # ---- regulator data: independent reading of the layout --------------------------------------------
-def gen_regdata(rng):
-    """returns (schema [(id, type)], expected values, payload bytes)"""
-    ids = rng.sample(range(2000), rng.randrange(1, 14))
+def gen_regdata(rng, bit_runs=False):
+    """returns (schema [(id, type)], expected values, payload bytes); bit_runs: runs of bit entries (most of them not filling
+    their last byte) separated by single entries of another type, the zero-sized undefined types among them often"""
+    ids = rng.sample(range(2000), rng.randrange(1, 14) if not bit_runs else rng.randrange(5, 30))
     schema, values = [], []
     types_pool = [1, 2, 3, 4, 5, 6, 7, 9, 10, 10, 10, 11, 12, 13, 14, 15, 16, 0, 8]
     i = 0
+    want_bits = True
     while i < len(ids):
         ty = rng.choice(types_pool)
+        if bit_runs:
+            ty = 10 if want_bits else rng.choice([0, 8, 0, 8, 4, 5, 11, 7])
+            want_bits = not want_bits
         if ty == 10:
-            run = rng.randrange(1, 18)
+            run = rng.randrange(1, 18) if not bit_runs else rng.choice([1, 2, 3, 5, 7, 8, 9, 10, 13])
             for _ in range(run):
                 if i >= len(ids):
                     break
@@ -177,8 +182,8 @@ class C05(Prop):
         cases = []
         for _ in range(n):
             cases.append({"kind": "sensor", "val": gen_sensor(rng, t), "trailing": [rng.randrange(256) for _ in range(rng.choice([0, 0, 2]))]})
-        for _ in range(n):
-            schema, values, versions, payload, body = gen_regdata(rng)
+        for k in range(n + n // 2):
+            schema, values, versions, payload, body = gen_regdata(rng, bit_runs=k >= n)
             cases.append({"kind": "regdata", "schema": schema, "values": values, "versions": versions, "payload": list(payload),
                           "body": list(body)})
         for _ in range(n // 2):
